@@ -128,6 +128,9 @@ func (k *KMSRegion) generate(keyID string) (pt, ct []byte, err error) {
 }
 
 func (k *KMSRegion) encrypt(keyID string, pt []byte) ([]byte, error) {
+	// the very slice the plugin passed in: if it is a private copy of the data key, the
+	// plugin is responsible for wiping it too
+	k.retain("Encrypt(input)", pt)
 	if k.FailEncrypt {
 		k.log("Encrypt", false)
 		return nil, ErrKMSDown
